@@ -198,7 +198,7 @@ func ExploreDouble(h *History, d *Decoded, ops []Op, root, dir, tier, kind strin
 }
 
 // DoubleTerm prints the [dbl] records of a case and returns the oracle failures of the double crashes.
-func (h *History) DoubleTerm(d *Decoded, dbl []DoubleCrash) (string, []FailRow, []ClenEnt, []string) {
+func (h *History) DoubleTerm(d *Decoded, dbl []DoubleCrash, prop string) (string, []FailRow, []ClenEnt, []string) {
 	var terms []string
 	var fails []FailRow
 	var clen []ClenEnt
@@ -229,7 +229,9 @@ func (h *History) DoubleTerm(d *Decoded, dbl []DoubleCrash) (string, []FailRow, 
 			}
 			o.K = dc.K1 + j
 			var fl []Verdict
-			fl = append(fl, h.OracleC01(d3, o)...)
+			if prop != "C02" { // "no acknowledged write lost" is C01's/C34's statement, not C02's
+				fl = append(fl, h.OracleC01(d3, o)...)
+			}
 			fl = append(fl, h.OracleC02(d3, o)...)
 			if o.Class == 0 {
 				if msg := h.reappliedTwice(d, dc.K1, o); msg != "" {
